@@ -11,6 +11,7 @@ var stdAssumptions = []string{
 // expectedReach lists, per property, the reach counters that a healthy run of
 // the check should see above zero; those at zero are reported as blind spots.
 var expectedReach = map[string][]string{
+	"C17": {"pool.reuse", "pool.miss-with-items", "pool.drop", "garblings-compared-with-run-alone"},
 	"C08": {"map.range", "map.range.permuted", "job.separate-process", "job.reused-compiler-with-history", "job.same-program-twice-on-one-instance"},
 	"C14": {"roundtrip.mpclc", "roundtrip.bristol", "file>4KiB", "rejected-with-error", "accepted-well-formed", "discarded: declared size above one million"},
 	"C04": {"whole-circuit.transcripts-scanned", "streaming.transcripts-scanned", "sha2pc.transcripts-scanned"},
@@ -27,6 +28,12 @@ var expectedReach = map[string][]string{
 }
 
 var props = map[string]propCfg{
+	"C17": {
+		Variant: "c17", Quick: 20 * time.Second, Thorough: 8 * time.Minute, Level: "exploration", RaceCompanion: true,
+		Rule:        "one case = one generated circuit (up to 120 gates) shared by 2..6 tasks, each with a tape-generated list of up to 11 operations Garble/Eval/Compute/Release/ReleaseAgain on two garbling slots (garblings are held across other tasks' garblings), its own inputs, key size (16/24/32) and DRBG stream; scheduling points: the Load/CompareAndSwap on the lazily created pool, every Pool.Get/Put (the simulated pool returns any pooled scratch or a new one and may drop items) and the loop heads inside Garble, Eval and Compute (build variant c17); oracle: garbled evaluation and Compute equal the truth table, every output label is one of the wire's two labels, a held garbling is bit-identical until released, double release is harmless, no panic, and every garbling (R, all wire labels, all table rows) is bit-identical to the one the same call list produces when run alone on a fresh copy; a companion pass runs the same operation lists on real goroutines under the race detector; non-trivial = more than 2 task switches; distinct = distinct SHA-256 of the event log",
+		Components:  map[string]string{"circuit.Garble/Eval/Compute/Release, garbleScratchPool": "real code (sync, sync/atomic rewritten, yields inserted at loop heads)", "sync.Pool, atomic.Pointer, scheduler": "simulator", "race companion": "real goroutines, real sync/atomic, go build -race (not a deterministic replay)"},
+		Assumptions: append([]string{"data-race freedom is judged by the Go race detector (happens-before based) on the same operation lists executed by real goroutines; that sub-check is not replayable"}, stdAssumptions...),
+	},
 	"C08": {
 		Variant: "c08", Quick: 30 * time.Second, Thorough: 12 * time.Minute, Level: "exploration", DetSample: 12,
 		Rule:        "one case = one program (crafted programs importing 3-4 library packages with package-level variables and constants 3/8; testsuite and example programs 3/8; generated MPCL programs 2/8) and one parameter set (prune on/off, Yao/GMW), compiled in 2..3 jobs: every `range` over a map in the compile path (compiler, ast, ssa, circuits, utils, mpa, types, circuit; build variant c08) iterates in a tape-chosen order (canonical, reversed, rotated, shuffled), each job after a tape-chosen history (0..3 earlier compilations of other programs; one reused compiler.Compiler value or fresh ones; one shared or fresh Params; the program itself twice on one instance), and 1/4 of the cases run the last job in a separate worker process; oracle: Circuit.Marshal bytes, MarshalBristol bytes, SSA listing and input/output description identical across the jobs; non-trivial = at least one map range was permuted; distinct = distinct SHA-256 of the event log (program, artefact hashes, map-order decisions)",
